@@ -76,7 +76,7 @@ def requirements(tier):
 # model construction
 
 def chain_spec(n, sav, swe, rec, mix, root_mode, raiser, other_hooks=True,
-               mix_first=False):
+               mix_first=False, bare_raise=False):
     """sav/swe/rec/mix: sets of levels (1-based). root_mode: 'reg' | 'unreg'
     | 'abc'. raiser: level whose savorizer raises SeasoningError or None."""
     classes = []
@@ -112,7 +112,8 @@ def chain_spec(n, sav, swe, rec, mix, root_mode, raiser, other_hooks=True,
         if i in sav:
             c['savorize'] = [['rename', 's%d' % i, 'p%d' % i]]
             if raiser == i:
-                c['savorize'].append(['raise_seasoning'])
+                c['savorize'].append(['raise_seasoning_bare' if bare_raise
+                                      else 'raise_seasoning'])
         if i in swe:
             c['sweeten'] = [['rename', 'p%d' % i, 's%d' % i]]
         classes.append(c)
@@ -478,7 +479,8 @@ def run_case(ctx, params):
                       set(params['rec']), set(params['mix']),
                       params['root_mode'], params.get('raiser'),
                       params.get('other_hooks', True),
-                      params.get('mix_first', False))
+                      params.get('mix_first', False),
+                      params.get('toplevel', 0) % 2 == 1)
     root = spec['root']
     m = H.model_of({'classes': spec['classes'], 'doc_type': spec['doc_type']})
     case = dict(params)
@@ -572,6 +574,11 @@ def run_case(ctx, params):
         nt = check_trace(ctx, m, spec, case, 'load', constructed,
                          tag + ' ' + pos)
         ctx.case([tag, pos, 'load'], nt)
+
+    # ---- one object mapping referenced twice (anchor + alias): every
+    # reference is a node of its own, seasoned by the whole chain once --------
+    if raiser is None:
+        aliased_object(ctx, m, spec, case, tag, lv, root, style)
 
     # ---- the same classes through a function that registers fewer of them ----
     # (a class-level memo of "registered bases" would leak between functions)
@@ -719,6 +726,55 @@ def partial_registration(ctx, m, spec, case, tag, lv, style):
                             t2), case)
         check_trace(ctx, m, spec, case, 'load', constructed, t2, un)
         ctx.case([tag, round_, 'load'], True)
+
+
+def aliased_object(ctx, m, spec, case, tag, lv, root, style):
+    from vlib import docs as D
+    from vlib import scalars as S
+    b = Builder(spec)
+    b.uid = 9000
+    level = lv[len(tag) % len(lv)]
+    plain = b.k_plain(level)
+    u = plain['uid']
+    doc = ['seq', [['anchor', 'o', D.spec_of(plain)], ['alias', 'o']],
+           S.TAG_SEQ]
+    try:
+        text = D.render(doc, 'flow' if style in ('flow', 'json') else 'block')
+        load = m.load_fn(['list', ['cls', root]])
+    except Exception as e:
+        ctx.note('aliased object: %r' % (e,))
+        return
+    m.reset()
+    kind, x = H.run_load(load, text)
+    ctx.count('loads')
+    ctx.count('aliased_object_loads')
+    t2 = tag + ' aliased-object'
+    if kind != 'ok':
+        ctx.violation(
+            'C10 load-failed %s aliased-object' % type(x).__name__,
+            'an object mapping referenced twice failed to load: %s (%s); '
+            'text %r' % (str(x)[-300:], t2, text[:300]), case)
+        return
+    exp = expected_hooks(spec, level, 'savorize')
+    got = [ev[3] for ev in m.events
+           if ev[2] == 'savorize' and uid_of(ev[5]) == u]
+    inits = [dict(ev[5]) for ev in m.events if ev[2] == 'init'
+             and isinstance(ev[5], dict) and ev[5].get('uid') == u]
+    wargs = dict(b.want[u][1])
+    if got != exp + exp:
+        ctx.violation(
+            'C10 savorize %s aliased-object' % (
+                'hook-skipped' if len(got) < 2 * len(exp)
+                else 'called-more-than-once' if len(got) > 2 * len(exp)
+                else 'wrong-order'),
+            'object uid=%s referenced twice: _yatiml_savorize calls %s, '
+            'expected %s for each reference (%s)' % (u, got, exp, t2), case)
+    elif len(inits) != 2 or any(a != wargs for a in inits):
+        ctx.violation(
+            'C10 load wrong-constructor-arguments aliased-object',
+            'object uid=%s referenced twice: constructor calls %r, expected '
+            'twice %r (%s)' % (u, inits, wargs, t2), case)
+    ctx.case([tag, 'aliased-object'], bool(exp))
 
 
 def partial_dump(ctx, m, spec, case, tag, lv, partial):
